@@ -4,6 +4,7 @@ import (
 	"fmt"
 	"go/token"
 	"go/types"
+	"strings"
 
 	"golang.org/x/tools/go/ssa"
 
@@ -251,4 +252,37 @@ func offsetFieldOf(pread *ssa.Function, st *types.Struct) int {
 		}
 	}
 	return -1
+}
+
+// decodeTargetsFresh: the configuration is decoded entry by entry (`for _, s := range cfg.Ports { PrimitiveDecode(s, &x) }`).
+// The decoder only sets the keys an entry has, so the struct it decodes into must be a new zero value for every entry:
+// declared once outside the loop, a later entry that omits a key (no `services`) silently inherits the previous
+// entry's value – a port that was configured without services is then served by the previous port's services.
+func decodeTargetsFresh(c *Ctx, rule string) {
+	p := c.P
+	n := 0
+	for _, fn := range p.FuncsIn("server") {
+		if fn.Blocks == nil || strings.HasSuffix(p.Fset.Position(fn.Pos()).Filename, "_test.go") {
+			continue
+		}
+		for _, call := range Calls(fn) {
+			cc := call.Common()
+			name := ""
+			if cc.IsInvoke() {
+				name = cc.Method.Name()
+			} else if f := cc.StaticCallee(); f != nil {
+				name = f.Name()
+			}
+			if name != "PrimitiveDecode" || len(cc.Args) == 0 || !InLoop(call.Block()) {
+				continue
+			}
+			target := Unwrap(cc.Args[len(cc.Args)-1])
+			n++
+			key := fmt.Sprintf("%s decode #%d", shortFn(fn), n)
+			a, isAlloc := target.(*ssa.Alloc)
+			c.Check(isAlloc && InLoop(a.Block()), rule, key, p.InstrPos(call), "each entry is decoded into a fresh zero struct",
+				"the struct an entry is decoded into is not allocated inside the entry loop ("+RenderN(target, 2)+"): keys absent from a later entry (port/ports/services) keep the previous entry's values, so a port configured without services inherits the services of the entry before it")
+		}
+	}
+	c.Floor(rule, 2, "[[port]] and [[filter]] entries of Run")
 }
